@@ -18,6 +18,7 @@ static inline void out_dec(struct tokout* o) { o->is_dec = 1; }
 static inline void out_fixed(struct tokout* o) { o->is_fixed = 1; }
 static inline void out_skipws(struct tokout* o) { }
 static inline void out_resetflags(struct tokout* o) { o->is_dec = 0; o->is_fixed = 0; o->other_flags = 0; }     /* resetiosflags(flags()): all format flags cleared */
+static inline void out_resetflags_mask(struct tokout* o, int base, int flt, int adjust) { if (base) o->is_dec = 0; if (flt) o->is_fixed = 0; }      /* resetiosflags(mask): only the named groups */
 static inline void out_fill(struct tokout* o, char c) { o->fill = c; }
 static inline void out_setw(struct tokout* o, int w) { o->cur_width = w; }
 static inline void out_precision(struct tokout* o, int p) { o->precision = p; }
@@ -63,6 +64,7 @@ void h_render(void) {
       else {
         __CPROVER_assert(r == RESULT_OK && o.n == 1 && o.kind[0] == TK_FLT && same_dbl(o.fval[0], (double)scaled), "[C05] an IEEE value is shown as value times multiplier / divided by divisor");
         __CPROVER_assert(t.m_precision == 0 || (o.fixed[0] && o.prec[0] == (int)t.m_precision + 6), "[C05] with the type's precision (+6 digits for IEEE values) in fixed notation");
+        __CPROVER_assert(t.m_precision != 0 || (scaled == 0.0f ? (o.fixed[0] && o.prec[0] == 1) : (!o.fixed[0] && o.prec[0] == 6)), "[C05,C12] an IEEE value without divisor is shown in the default float format (0 as 0.0) whatever was printed on the stream before");
         CANARY("ieee value");
       }
     }
